@@ -1,0 +1,52 @@
+//go:build verif
+
+package reader
+
+// Contracts for the govc verifier (see /verif/DESIGN.md). Comment-only: declares nothing.
+
+// ---- ghost event sequences ------------------------------------------------------------------------
+// out:    packs enqueued on a downstream channel's output stream (tsInfo.targetMsgChan)
+// events: API events sent to the server (replicateChannelHandler.apiEventChan)
+//@ ghost var out seq[*api.ReplicateMsg]
+//@ ghost var events seq[*api.ReplicateAPIEvent]
+//@ changhost tsInfo.targetMsgChan out
+//@ changhost replicateChannelHandler.apiEventChan events
+
+// The ts manager singleton (sync.Once initialisation): assumed to return the non-nil instance.
+//@ trusted func GetTSManager
+//@   ensures result != nil && result.channelTS2 != nil && result.channelTSLocks != nil && result.targetChannelChans != nil
+//@   modifies nothing
+
+// handlePack is not yet verified as a whole; at its call site only this frame is assumed:
+// it never enqueues on a downstream output stream itself (it returns the pack or forwards it).
+//@ trusted func (*replicateChannelHandler).handlePack
+//@   modifies * except out
+
+//@ func FormatChanKey
+//@   props C06 C01 C03
+//@   ensures result == replicateID + "." + channelName
+//@   modifies nothing
+//@   panics never
+
+//@ func (*replicateChannelHandler).getTSManagerChannelKey
+//@   props C06 C01 C03
+//@   requires r != nil
+//@   ensures result == r.replicateID + "." + channelName
+//@   modifies nothing
+//@   panics never
+
+//@ func (*tsManager).SendTargetMsg
+//@   props C06 C01
+//@   requires m != nil && m.channelTS2 != nil && m.channelTSLocks != nil
+//@   ensures [enqueued-once] len(out) == old(len(out)) + 1 && out[old(len(out))] == msg
+//@   ensures forall i int :: 0 <= i && i < old(len(out)) ==> out[i] == old(out[i])
+//@   modifies out
+
+// ---- C06 / C01: hand-over of one pack from a stream to the downstream output ----------------------
+//@ func (*replicateChannelHandler).innerHandleReplicateMsg
+//@   props C06 C01
+//@   requires r != nil && msg != nil
+//@   ensures [at-most-one-pack] len(out) == old(len(out)) || len(out) == old(len(out)) + 1
+//@   ensures [labelled-with-its-stream] len(out) == old(len(out)) + 1 ==> out[old(len(out))].TaskID == msg.TaskID && out[old(len(out))].CollectionID == msg.CollectionID && out[old(len(out))].CollectionName == msg.CollectionName && out[old(len(out))].PChannelName == msg.PChannelName
+//@   ensures forall i int :: 0 <= i && i < old(len(out)) ==> out[i] == old(out[i])
+//@   panics never
